@@ -54,14 +54,14 @@ def build_bin(name):
     if name in _built:
         return _built[name]
     env = dict(os.environ, CARGO_NET_OFFLINE="true", RUSTUP_TOOLCHAIN=os.environ.get("RUSTUP_TOOLCHAIN", "stable"),
-               CARGO_TARGET_DIR=os.path.join(HARNESS, "target"))
+               CARGO_TARGET_DIR=os.environ.get("VERIF_TARGET_DIR") or os.path.join(HARNESS, "target"))
     t0 = time.time()
     r = sh(["cargo", "build", "--offline", "--quiet", "--bin", name], cwd=HARNESS, env=env)
     if r.returncode != 0:
         # a build failure is either a tool problem or a change to /repo that no longer compiles
         # against the harness; both are tool errors (exit 2), never violations
         raise ToolError("harness build failed for %s:\n%s" % (name, r.stdout[-4000:]))
-    path = os.path.join(HARNESS, "target", "debug", name)
+    path = os.path.join(env["CARGO_TARGET_DIR"], "debug", name)
     h = hashlib.sha256(open(path, "rb").read()).hexdigest()
     _built[name] = (path, h, time.time() - t0)
     return _built[name]
@@ -371,7 +371,10 @@ def run_model(model, M, tier, seed, wdir, extra_behaviours=None):
 
     def runjob(job):
         cmd, out = job
-        r = sh(cmd, timeout=T.get("harness_timeout", 3000))
+        try:
+            r = sh(cmd, timeout=T.get("harness_timeout", 1200 if tier == "quick" else 6000))
+        except subprocess.TimeoutExpired:
+            raise ToolError("harness timeout: %s" % " ".join(cmd))
         if r.returncode != 0:
             raise ToolError("harness failed: %s\n%s" % (" ".join(cmd), r.stdout[-3000:]))
         return out
